@@ -1124,9 +1124,9 @@ pub fn run_all(ctx: &mut Ctx, replay: Option<&Path>) {
     ctx.regressions(&l);
     ctx.regressions(&t);
     ctx.regressions(&p);
-    ctx.random(&l, log_strategy(), ctx.tier.pick(3000, 40_000));
-    ctx.random(&t, (proptest::collection::vec(cnode_strategy(), 0..6), edit_strategy()).prop_map(|(tree, edit)| TreeCase { tree, edit }), ctx.tier.pick(3000, 40_000));
+    ctx.random(&l, log_strategy(), ctx.tier.pick(10_000, 60_000));
+    ctx.random(&t, (proptest::collection::vec(cnode_strategy(), 0..6), edit_strategy()).prop_map(|(tree, edit)| TreeCase { tree, edit }), ctx.tier.pick(10_000, 60_000));
     let tpl_case = (0usize..21).prop_flat_map(|i| inst_strategy(kind_of_index(i)).prop_flat_map(move |inst| (tpl_strategy(i, inst.dim()), tpl_strategy(i, inst.dim()), 0u32..20))).prop_map(|(a, b, iters)| TplCase { a, b, iters });
-    ctx.random(&p, tpl_case, ctx.tier.pick(600, 6000));
+    ctx.random(&p, tpl_case, ctx.tier.pick(1500, 8000));
     let _ = std::fs::remove_dir_all(format!("{}/target/scratch/{}", crate::engine::VERIF_DIR, std::process::id()));
 }
